@@ -32,6 +32,9 @@ func c16Query() *rapid.Generator[string] {
 		rapid.String().Filter(utf8.ValidString),
 		// the validator lets invalid UTF-8 through, so the history is handed such queries too
 		rapid.SampledFrom([]string{"a\xe6", "zzqxj a\xe6", "\xff\xfe", "find \xc3", "ok \xe2\x82", "\x80\x80\x80", "caf\xe9"}),
+		// texts that mean something to a JSON writer or reader: literal escape sequences, quotes,
+		// backslashes, the characters encoding/json escapes for HTML, line separators, braces
+		rapid.SampledFrom([]string{`printf '\u003e' prints what`, `echo "\u0026\u003c"`, `a \u0026\u0026 b`, `2>&1 | tee <in >out`, `say "hi" \"there\"`, `back\slash\`, `\\u003e`, `\n not a newline`, "real\nnewline", "tab\there", "uni\u2028sep\u2029", `{"entries":[]}`, `],"max_size":1}`, `</script>`, `\u00e9 é`, `\ud83d\ude00`, "\\", `"`, `\"`, "nul\x00byte"}),
 	)
 }
 
